@@ -214,10 +214,12 @@ impl LookupClass<&StringName, Class> for Context {
             }
 
             let clss = Class::try_from((generic_class, &generics, pos))?;
-            let clss = clss
-                .parents
+            // parents are a set: consult them in a fixed order, the first to define a member wins
+            let mut parents: Vec<&TrueName> = clss.parents.iter().collect();
+            parents.sort_by_key(|p| p.to_string());
+            let clss = parents
                 .iter()
-                .map(|p| self.class(p, pos))
+                .map(|p| self.class(*p, pos))
                 .collect::<TypeResult<Vec<Class>>>()?
                 .iter()
                 .fold(clss, |acc, parent| acc.inherit(parent));
